@@ -77,6 +77,8 @@ type VC struct {
 	cur       *State
 	baseFacts []int
 	factIndex map[*Term]int
+	varMemo   map[*Term]*big.Int
+	varIDs    map[*Term]int
 	ghostParent map[int]int
 	modelTerms []modelTerm
 }
@@ -100,6 +102,10 @@ type Obligation struct {
 	vc     *VC
 	Res    SolveResult
 	Cover  bool // expect sat (reachability cover)
+	qfOnly bool
+	wantInst bool
+	instAsserts []*Term
+	droppedQuant bool
 	Clause *Clause
 }
 
@@ -454,13 +460,38 @@ func (vc *VC) stringInv(v VString) {
 }
 
 // readM reads an integer of the given width from the byte heap, little-endian.
+// constByte: addr points into a string constant (read-only data): its byte is known.
+func (vc *VC) constByte(addr *Term) *Term {
+	if len(vc.strConsts) == 0 {
+		return nil
+	}
+	rest, c := splitConst(addr)
+	if len(rest) != 1 {
+		return nil
+	}
+	for s, p := range vc.strConsts {
+		if p == rest[0] && c >= 0 && int(c) < len(s) {
+			return vc.B.Int(int64(s[c]))
+		}
+	}
+	return nil
+}
+
+// byteAt reads one byte of the byte heap version M (string constants are never written).
+func (vc *VC) byteAt(M, addr *Term) *Term {
+	if b := vc.constByte(addr); b != nil {
+		return b
+	}
+	return vc.B.Select(M, addr)
+}
+
 func (vc *VC) readM(st *State, addr *Term, size int64, signed bool) *Term {
 	B := vc.B
 	M := vc.heapGet(st, "M")
 	var parts []*Term
 	mul := big.NewInt(1)
 	for i := int64(0); i < size; i++ {
-		by := B.Select(M, B.Add(addr, B.Int(i)))
+		by := vc.byteAt(M, B.Add(addr, B.Int(i)))
 		if !by.IsConst() {
 			vc.fact(B.And(B.Le(B.Int(0), by), B.Le(by, B.Int(255))))
 		}
